@@ -1,34 +1,34 @@
-SPECIFICATION TSpec
+SPECIFICATION GSpec
 CONSTANTS
-  Mods = {"m1", "m2", "m3"}
-  PNames = {"value", "target", "x", "y", "s"}
+  Mods = {"m1", "m2"}
+  PNames = {"value", "target", "x", "y"}
   ExtraM = {"zz"}
-  ExtraP = {"zz", "cmd"}
+  ExtraP = {"cmd"}
   CmdP = {"cmd"}
-  Wires = {"w1", "w2", "w3", "wbad"}
-  ValidW = {"w1", "w2", "w3"}
+  Wires = {"w1", "wbad"}
+  ValidW = {"w1"}
   ENames = {"ProtocolError", "NoSuchModule", "NoSuchParameter", "NoSuchCommand", "CommandFailed", "CommandRunning", "ReadOnly", "RangeError", "WrongType", "BadJSON", "CommunicationFailed", "TimeoutError", "HardwareError", "IsBusy", "IsError", "Disabled", "Impossible", "ReadFailed", "OutOfRange", "NotImplemented", "InternalError", "Bogus", "BadValue"}
   KnownE = {"ProtocolError", "NoSuchModule", "NoSuchParameter", "NoSuchCommand", "CommandFailed", "CommandRunning", "ReadOnly", "RangeError", "WrongType", "BadJSON", "CommunicationFailed", "TimeoutError", "HardwareError", "IsBusy", "IsError", "Disabled", "Impossible", "ReadFailed", "OutOfRange", "NotImplemented"}
-  Texts = {"t1", "t2", "tp"}
-  PrefTexts = {"tp"}
+  Texts = {"t1"}
+  PrefTexts = {}
   PrefClass = "RangeError"
   PrefRest = "t1"
-  Stamps = {0, 1, 2, 3, 4, 5, 6, 7, 8, 9, 10, 11, 12, 13, 14, 15, 16, 17, 18, 19, 20, 21, 22, 23, 24, 25, 26, 27, 28, 29, 30, 999}
-  MaxNow = 20
-  Shapes = {"ok", "okq", "short", "scalar", "badq", "badt", "nodata", "badtext"}
+  Stamps = {999}
+  MaxNow = 2
+  Shapes = {"ok"}
   LevelKinds = {"node", "module", "param"}
-  Kinds = {"updateEvent", "updateItem"}
-  Behs = {"ok", "oneshot", "raise"}
-  ErrBehs = {"ok", "raise"}
-  InitDescs <- AnyDescs
-  Descs <- AnyDescs
-  MaxCbs = 99
-  MaxWait = 99
-  Depth = 99
-CONSTRAINT Track
-INVARIANT NoFuture
-INVARIANT LastImport
-INVARIANT RegisterSeesCache
-INVARIANT ReleasedSeesNew
-POSTCONDITION Verdicts
+  Kinds = {"updateItem"}
+  Behs = {"ok"}
+  ErrBehs = {}
+  InitDescs <- GenInit
+  Descs <- GenInit
+  GIdents <- GIdentsC
+  GActions = {"error_update", "error_read", "error_change"}
+  GLevels <- GLevelsE
+  EmitOneIn = 1
+  MaxCbs = 3
+  MaxWait = 1
+  Depth = 2
+CONSTRAINT GBound
+INVARIANT Emit1
 CHECK_DEADLOCK FALSE
